@@ -4,7 +4,7 @@
    breaks the corresponding proof here (and with it the property theorems restated on the source functions in
    Props/C10.v and Props/C12.v). *)
 From Coq Require Import ZArith QArith Qabs.
-From LV Require Import Model.Bezier Model.Winding Model.LineInter Model.Sources Gen.Functions.
+From LV Require Import Model.Bezier Model.Winding Model.LineInter Model.Sources Model.Triangle Gen.Functions.
 Open Scope Q_scope.
 
 (* ---- LineSegment *)
@@ -158,3 +158,18 @@ Theorem src_quad_extrema_are_model : forall c,
   src_quad_fast_bounding_range_x c = q_fast_bounding_range (px (q_from c)) (px (q_ctrl c)) (px (q_to c)) /\
   src_quad_fast_bounding_range_y c = q_fast_bounding_range (py (q_from c)) (py (q_ctrl c)) (py (q_to c)).
 Proof. intro c. repeat split; reflexivity. Qed.
+
+(* ---- Triangle (C12) *)
+Lemma src_line_intersects_is_model s o : src_line_intersects s o = seg_intersects s o.
+Proof. reflexivity. Qed.
+Lemma src_tri_bary_is_model t p : src_tri_get_barycentric_coords_for_point t p = tri_bary t p.
+Proof. reflexivity. Qed.
+Lemma src_tri_contains_point_is_model t p : src_tri_contains_point t p = tri_contains_point t p.
+Proof. reflexivity. Qed.
+Lemma src_tri_edges_are_model t :
+  src_tri_ab t = tri_ab t /\ src_tri_bc t = tri_bc t /\ src_tri_ac t = tri_ac t /\
+  src_tri_ba t = l_flip (tri_ab t) /\ src_tri_cb t = l_flip (tri_bc t) /\ src_tri_ca t = l_flip (tri_ac t).
+Proof. repeat split; reflexivity. Qed.
+Lemma src_tri_intersects_line_segment_is_model t s :
+  src_tri_intersects_line_segment t s = tri_intersects_line_segment t s.
+Proof. reflexivity. Qed.
